@@ -185,7 +185,11 @@ where
                 return None;
             }
             State::Parsing => {
-                self.increment_record();
+                // if the last call failed while completing a record (I/O error
+                // or buffer limit), the search is resumed instead
+                if self.incomplete_pos.is_none() {
+                    self.increment_record();
+                }
             }
         };
 
@@ -243,7 +247,10 @@ where
             State::Parsing => {
                 // next() was previously called, the current record has
                 // already been returned -> start parsing the next one
-                self.increment_record();
+                // (unless next() failed while completing the record)
+                if self.incomplete_pos.is_none() {
+                    self.increment_record();
+                }
                 self.state = State::Positioned;
             }
             State::Positioned => {
